@@ -168,7 +168,9 @@ def value_strategy(kind):
 AWKWARD_NAMES = ['n_failures', 'a_min_ok', 'Index', 'a b', "it's", 'q"x',
                  'a,b', '#c', 'é', '中', 'type', 'fields', 'x_max_ok', '0',
                  'A', 'a', 'b', 'c', 'col', 'RowNumber', 'share %', '%s',
-                 '{0}', 'a%%b', 'val', '2019', '7', 'n', 'VAL']
+                 '{0}', 'a%%b', 'val', '2019', '7', 'n', 'VAL',
+                 # one name in decomposed, one in composed form
+                 'cafe\u0301', 'caf\u00e9', 'A\u030a']
 
 
 def name_strategy():
